@@ -266,6 +266,12 @@ class StmtMixin:
                 out.append(self._raise(s2, vals))
                 continue
             d, k = vals
+            if isinstance(d.t, TRef) or (isinstance(d.t, TOpt) and isinstance(d.t.inner, TRef)):
+                # obj[key] = v on an object: its class's __setitem__ (contracted repo method or assumed external one)
+                for s3, m in self.getattr(d, "__setitem__", s2, tgt):
+                    for s4, r in self.apply(m, [k, v], {}, s3, tgt):
+                        out.append(self._raise(s4, r) if isinstance(r, Raised) else (s4, NORMAL))
+                continue
             if isinstance(d.t, TConst) and d.const is not None and d.const.v == {}:
                 raise EngineError("store into an untyped empty dict literal (declare the variable's type)")
             if not isinstance(d.t, TDict):
@@ -485,11 +491,75 @@ class StmtMixin:
         return self.with_contextmanager(s, item, st)
 
     def with_contextmanager(self, s, item, st):
-        raise EngineError(f"with-statement over {ast.unparse(item.context_expr)} is not modelled")
+        """`with cm(args):` for a generator-based @contextmanager defined in the repo (a method or a local function):
+        the statements before its single top-level `yield` run on entry, those after it on every exit that is not an
+        exception (CPython: without try/finally in the generator, an exception thrown in at `yield` skips them)."""
+        ce = item.context_expr
+        if item.optional_vars is not None or not isinstance(ce, ast.Call):
+            raise EngineError(f"with-statement over {ast.unparse(ce)} is not modelled")
+        out = []
+        for s1, fv in self.ev_top(ce.func, st):
+            if isinstance(fv, Raised):
+                out.append(self._raise(s1, fv))
+                continue
+            ex = fv.extra if isinstance(fv.t, TConst) else None
+            if isinstance(ex, tuple) and ex[0] == "method":
+                modn, qual = ex[1].split(":")
+                mod = loader.load(modn, self.repo)
+                fnode, selfv, closure = mod.functions[qual], ex[2], {}
+            elif isinstance(ex, tuple) and ex[0] == "localfunc":
+                mod, qual, fnode, selfv, closure = s1.frame.module, f"{s1.frame.qualname}.<locals>.{ex[1].name}", ex[1], None, dict(s1.store)
+            else:
+                raise EngineError(f"with-statement over {ast.unparse(ce)} is not modelled")
+            if not any("contextmanager" in ast.unparse(d) for d in fnode.decorator_list):
+                raise EngineError(f"with-statement over a non-contextmanager: {ast.unparse(ce)}")
+            body = [b for b in fnode.body if not _is_doc(b)]
+            ys = [i for i, b in enumerate(body) if isinstance(b, ast.Expr) and isinstance(b.value, ast.Yield)]
+            inner = [n for b in body for n in ast.walk(b) if isinstance(n, (ast.Yield, ast.YieldFrom))]
+            if len(ys) != 1 or len(inner) != 1 or any(isinstance(b, ast.Try) for b in body):
+                raise EngineError("contextmanager must have exactly one top-level `yield` and no try block")
+            pre, post = body[: ys[0]], body[ys[0] + 1:]
+            for s2, vals in self.ev_list_top(list(ce.args) + [k.value for k in ce.keywords], s1):
+                if isinstance(vals, Raised):
+                    out.append(self._raise(s2, vals))
+                    continue
+                args = ([selfv] if selfv is not None else []) + vals[: len(ce.args)]
+                kwargs = {k.arg: v for k, v in zip(ce.keywords, vals[len(ce.args):])}
+                bound, _ = self.bind_params(fnode, args, kwargs, s2, qual)
+                caller = (s2.store, s2.frame)
+                from .calls import Frame
+
+                cm_frame = Frame(mod, qual, fnode, None)
+
+                def run_in_cm(state, stmts, cm_store):
+                    saved = (state.store, state.frame)
+                    state.store, state.frame = cm_store, cm_frame
+                    res = []
+                    for s3, oc in self.exec_block(stmts, state):
+                        cm_after = s3.store
+                        s3.store, s3.frame = (saved[0] if s3 is state else dict(saved[0])), saved[1]
+                        res.append((s3, oc, cm_after))
+                    return res
+
+                cm_store0 = dict(closure)
+                cm_store0.update(bound)
+                for s3, oc, cm_store in run_in_cm(s2, pre, cm_store0):
+                    if oc.kind != "normal":
+                        if oc.kind == "raise":
+                            out.append((s3, oc))
+                            continue
+                        raise EngineError("contextmanager returned before its yield")
+                    for s4, oc2 in self.exec_block(s.body, s3):
+                        if oc2.kind == "raise":
+                            out.append((s4, oc2))
+                            continue
+                        for s5, oc3, _cs in run_in_cm(s4, post, dict(cm_store)):
+                            out.append((s5, oc2 if oc3.kind == "normal" else oc3))
+        return out
 
     # ------------------------------------------------------------------
     def ex_FunctionDef(self, s, st):
-        st.store[s.name] = SV(CONST, None, None, extra=("localfunc", s, None))
+        st.store[s.name] = SV(CONST, None, None, extra=("localfunc", s, None))  # (kind, FunctionDef, -)
         return [(st, NORMAL)]
 
     def ex_Import(self, s, st):
